@@ -5,7 +5,7 @@
 
 package serializer
 
-// The native envelope codec reads from, and writes to, exactly the stream it is given (C16): every primitive decoder consumes
+// The native envelope decoder reads from exactly the stream it is given (C16): every primitive decoder consumes
 // exactly the bytes of its value from the reader it is handed (wire/perunio contracts), so an envelope decoder that hands its own
 // reader to all of them leaves the stream at the first byte of the next envelope. A buffering or otherwise wrapping reader in
 // between would read ahead into the next envelope.
@@ -16,8 +16,3 @@ package serializer
 //@   modifies *
 //@   callsite Decode : reader == outer_arg0
 //@   callsite DecodeMsg : arg0 == outer_arg0
-//@ func (serializer).Encode
-//@   requires arg0 != nil && arg1 != nil && arg1.Msg != nil
-//@   modifies *
-//@   callsite Encode : writer == outer_arg0
-//@   callsite EncodeMsg : arg1 == outer_arg0 && arg0 == outer_arg1.Msg
